@@ -724,12 +724,22 @@ def worker_side(f, mp):
 
 CONFIGS = {
     'chic_s': {'method': 'chic', 'bam': 'chic', 'mp': False},
-    'chic_m': {'method': 'chic', 'bam': 'chic', 'mp': True},
+    'chic_m': {'method': 'chic', 'bam': 'chic', 'mp': True, 'ref_config': 'chic_s'},
     'nla_s': {'method': 'nla', 'bam': 'nla', 'mp': False},
-    'nla_m': {'method': 'nla', 'bam': 'nla', 'mp': True},
+    'nla_m': {'method': 'nla', 'bam': 'nla', 'mp': True, 'ref_config': 'nla_s'},
+    # the nla records spread over small contig, small contig, large contig, small contig: the job list of
+    # --one_contig_per_process groups small contigs into one job with several tasks.  "Every record" for a
+    # --multiprocess run = the records the serial run writes for the same options (ref_config)
+    'nlamc_s': {'method': 'nla', 'bam': 'nla_mc', 'mp': False, 'extra': ['--one_contig_per_process']},
+    'nlamc_m': {'method': 'nla', 'bam': 'nla_mc', 'mp': True, 'extra': ['--one_contig_per_process'], 'ref_config': 'nlamc_s'},
+    'nlamcskip_s': {'method': 'nla', 'bam': 'nla_mc', 'mp': False, 'extra': ['--one_contig_per_process', '-skip_contig', 'scaf2']},
+    'nlamcskip_m': {'method': 'nla', 'bam': 'nla_mc', 'mp': True, 'extra': ['--one_contig_per_process', '-skip_contig', 'scaf2'],
+                    'ref_config': 'nlamcskip_s'},
+    # (-contig X is not used here: --multiprocess forces one contig per process and that branch ignores -contig,
+    #  the run then writes ALL contigs - a superset of the serial output, not a loss of records)
     # the complete data/mini_nla_test.bam (566 records, 9 MB header: 2-4 s per run): thorough tier only
     'nlafull_s': {'method': 'nla', 'bam': 'nla_full', 'mp': False},
-    'nlafull_m': {'method': 'nla', 'bam': 'nla_full', 'mp': True},
+    'nlafull_m': {'method': 'nla', 'bam': 'nla_full', 'mp': True, 'ref_config': 'nlafull_s'},
 }
 
 L_SINGLE_LOOP = 'tag_multiome_single_thread/next(enumerate(molecule_iterator_exec))#0'
@@ -910,6 +920,8 @@ class Prop(fw.PropBase):
             add(cfg, [F('write_tags', after=0, where='worker')])
             add(cfg, [F('sort_worker', first=3)])
             add(cfg, [F('sort_worker', first=2)])
+            add(cfg, [F('sort_worker', first=3, kind='partial')])
+            add(cfg, [F('sort_worker', first=1, kind='partial')])
             add(cfg, [F('rg_header_worker')])
             add(cfg, [F('index_header')])
             add(cfg, [F('merge_bams')])
@@ -945,6 +957,26 @@ class Prop(fw.PropBase):
                        F('index_header'), F('pysam_merge'), F('pysam_merge', kind='partial'), F('index_out'),
                        F('remove_merged_input', after=0), F('rmtree'), F('write_status', after=1)):
                 sweep(cfg, fl)
+        # several small contigs + a large one, with -skip_contig / -contig: job construction and clean-up of
+        # "empty" jobs must not lose records (compared with the serial run for the same options)
+        for cfg in ('nlamc_s', 'nlamcskip_s'):
+            n = self.n_mol[cfg]
+            add(cfg, [])
+            add(cfg, [], pre='prev_ok')
+            add(cfg, [F('write_pysam', after=n // 2)])
+            add(cfg, [F('sort', first=3, kind='partial')])
+            add(cfg, [F('index_out')])
+        for cfg in ('nlamc_m', 'nlamcskip_m'):
+            add(cfg, [])
+            add(cfg, [], pre='prev_ok')
+            for k in range(self.n_jobs[cfg]):
+                add(cfg, [F('worker', after=k)])
+            add(cfg, [F('write_pysam', after=0, where='worker')])
+            add(cfg, [F('sort_worker', first=3, kind='partial')])
+            add(cfg, [F('sort_worker', first=2, kind='partial')])
+            add(cfg, [F('pysam_merge', kind='partial')])
+            add(cfg, [F('index_out')])
+            add(cfg, [F('rmtree')])
         # histories of the INPUT file: verify_and_fix_bam must (re)build a missing or outdated index, or
         # reads are silently not fetched and the "complete" output lacks records of the current input
         for cfg in ('nla_s', 'nla_m', 'chic_s', 'chic_m'):
@@ -1063,6 +1095,10 @@ class Prop(fw.PropBase):
                 v = mp
             if name == CH_EXISTS:
                 v = case.get('pre') == 'prev_ok'
+            if name == 'tag_multiome_multi_processing: one_contig_per_process':
+                v = '--one_contig_per_process' in CONFIGS[cfg].get('extra', [])
+            if name == "tag_multiome_multi_processing: molecule_iterator_args.get('contig', None) is not None":
+                v = '-contig' in CONFIGS[cfg].get('extra', [])
             if name in CH_METHOD.values():
                 v = name == CH_METHOD[CONFIGS[cfg]['method']]
             chs.append(1 if v else 0)
